@@ -16,7 +16,7 @@ from hypothesis import strategies as st
 from ..kit import peerkeys
 from ..kit.protokit import OWN_PHONE
 
-from yowsup.layers.interface import YowInterfaceLayer
+from yowsup.layers.interface import YowInterfaceLayer, ProtocolEntityCallback
 from yowsup.structs import ProtocolTreeNode
 
 OWN_JID = OWN_PHONE + "@s.whatsapp.net"
@@ -81,6 +81,15 @@ class App(YowInterfaceLayer):
         self.log = []
 
     def toUpper(self, entity):
+        self.got.append(entity)
+
+
+class AppWithIqHandler(App):
+    """an application that also declares a general handler for iq entities (as the bundled cli demo does): replies to its own
+    requests still go to the callbacks registered with the request, everything else of that kind to the handler"""
+
+    @ProtocolEntityCallback("iq")
+    def on_iq(self, entity):
         self.got.append(entity)
 
 
@@ -182,7 +191,10 @@ def run_case(case):
         return run_media_case(case)
     out = Outcome()
     axolotl = bool(case.get("axolotl"))
-    rig = ProtoRig([True, True, True, True], axolotl, top_cls=App)
+    app_cls = AppWithIqHandler if case.get("iq_handler") else App
+    if case.get("iq_handler"):
+        out.label("application_declares_an_iq_handler")
+    rig = ProtoRig([True, True, True, True], axolotl, top_cls=app_cls)
     try:
         return _run(case, out, rig, axolotl)
     finally:
@@ -247,7 +259,7 @@ def _run(case, out, rig, axolotl):
         return True
 
     def fresh_effect(node_tree):
-        fresh = ProtoRig([True, True, True, True], axolotl, top_cls=App)
+        fresh = ProtoRig([True, True, True, True], axolotl, top_cls=type(rig.top))
         try:
             fresh.inject(T.to_node(node_tree))
             return snapshot(fresh, 0, 0), None
@@ -608,7 +620,7 @@ def script_strategy():
                 ops.append(["ireply", draw(sel), draw(st.sampled_from(["result", "result", "result", "error"]))])
             else:
                 ops.append(["ireplay", draw(sel)])
-        return {"sub": "history", "axolotl": draw(st.booleans()), "ops": ops}
+        return {"sub": "history", "axolotl": draw(st.booleans()), "ops": ops, "iq_handler": draw(st.integers(0, 2)) == 0}
     return build()
 
 
